@@ -302,7 +302,8 @@ class FakeSock(socket.socket):
     """In-memory connection: makefile('rb') hands out the request stream, writes
     arrive through sendall() (StreamRequestHandler's unbuffered _SocketWriter)."""
 
-    def __init__(self, data: bytes, fail_at=None, fail_exc=None, on_write=None):  # noqa
+    def __init__(self, data: bytes, fail_at=None, fail_exc=None, on_write=None, fail_once=False):  # noqa
+        self.fail_once = fail_once
         self._rfile = io.BytesIO(data)
         self.writes = []
         self.fail_at = fail_at  # 1-based index of the first failing write
@@ -312,14 +313,26 @@ class FakeSock(socket.socket):
         self.failed = 0
         self._spliced = []
 
-    def makefile(self, mode="r", *a, **k):
+    def makefile(self, mode="r", buffering=-1, *a, **k):
         if mode[0] == "r":
             return self._rfile
-        raise AssertionError("unexpected makefile mode %r" % mode)
+        # a buffered connection writer (StreamRequestHandler.wbufsize != 0): every flush of the
+        # buffer is one send on the connection
+        sock = self
+
+        class _Raw(io.RawIOBase):
+            def writable(self):
+                return True
+
+            def write(self, b):
+                sock.sendall(bytes(b))
+                return len(b)
+
+        return io.BufferedWriter(_Raw(), buffer_size=buffering if buffering and buffering > 0 else 8192)
 
     def sendall(self, b, *a):
         self.nwrites += 1
-        if self.fail_at is not None and self.nwrites >= self.fail_at:
+        if self.fail_at is not None and (self.nwrites == self.fail_at if self.fail_once else self.nwrites >= self.fail_at):
             self.failed += 1
             raise self.fail_exc()
         data = bytes(b)
@@ -448,11 +461,11 @@ def make_server(config, server_class=None):
     return server
 
 
-def serve(server, data: bytes, tls=False, fail_at=None, fail_exc=None, sock=None) -> Result:
+def serve(server, data: bytes, tls=False, fail_at=None, fail_exc=None, sock=None, fail_once=False) -> Result:
     """Serve one connection carrying `data` through the real connection handler."""
     if sock is None:
         cls = FakeTLSSock if tls else FakeSock
-        sock = cls(data, fail_at=fail_at, fail_exc=fail_exc)
+        sock = cls(data, fail_at=fail_at, fail_exc=fail_exc, fail_once=fail_once)
     del LOG.records[:]
     del CATCHALL.caught[:]
     PM.last = None
